@@ -136,9 +136,8 @@ impl<'w> FnTr<'w> {
             }
             // `unsafe { e }`: every operation inside must still be in the mapping table (unchecked accesses are translated
             // as checked ones)
-            Expr::Unsafe(u) => {
-                let b = Expr::Block(syn::ExprBlock { attrs: vec![], label: None, block: u.block.clone() });
-                let (lines, ty) = self.tr_ctl_value(&b, exp)?;
+            Expr::Unsafe(_) => {
+                let (lines, ty) = self.tr_ctl_value(e, exp)?;
                 match compress(&lines) {
                     Some(t) => Ok(Ex::pure(t, ty)),
                     None => match lines.as_slice() {
